@@ -166,10 +166,10 @@ class C20(Prop):
                     res = list(x)
                     if tuple(x) not in ref:
                         viol.append("draw-returned-non-member")
-                except IndexError:
-                    res = "IndexError"
+                except Exception:
                     if ref:
-                        viol.append("draw-raised-on-non-empty")
+                        raise                  # a draw from a non-empty set must return a member
+                    res = "IndexError"         # drawing from the empty set fails; with which exception the property does not say
             elif name == "contains":
                 res = D(op[1]) in ds
             elif name == "len":
